@@ -133,6 +133,11 @@ func c02r1b(c *Ctx) {
 					return true
 				})
 			}
+			if len(gs.Call.Args) == 2 {
+				b, isC := prog.ConstBool(f.Info(), gs.Call.Args[1])
+				c.check(isC && b, R, f.Key+": go "+short(k)+" of the rotated file is forced", c.pos(gs), "force = true",
+					"the only flush a rotated data file ever gets on its own is spawned with force=false, so the flusher's rate limit (flush_interval, <1MB buffered) can skip it: the acknowledged tail of the rotated file stays in memory until shutdown")
+			}
 			c.check(joined, R, key, c.pos(gs), "close waits for it or flushes the chunk itself",
 				"a goroutine that writes buffered records of the previous data file is spawned and never joined; Bucket.close flushes only the head chunk (flush(-1)), so Close can return — and the process exit — before acknowledged records of the rotated file reach disk")
 			return true
